@@ -189,6 +189,8 @@ Err(x) ==
     [] x.k \in Comparisons \cup {"Max", "Min"} ->
          LET e1 == First(Err(x.left), Err(x.right)) IN
          IF e1 # "" THEN e1
+         ELSE IF x.k \in {"Equal", "NotEqual"} /\ TypeOf(x.left).k = "boolean" /\ TypeOf(x.right).k = "boolean"
+              THEN ""                                   \* (in)equality of two booleans (flag == false)
          ELSE IF TypeOf(x.left).k \notin {"integer", "float"} \/ TypeOf(x.right).k \notin {"integer", "float"}
               THEN "unsupported-node" ELSE ""
     [] x.k = "And" -> LET e1 == Err(x.left) IN IF e1 # "" THEN e1 ELSE IF Val(x.left) THEN Err(x.right) ELSE ""
